@@ -121,10 +121,13 @@ const (
 	nKinds
 )
 
-func c02Case(first uint64, kinds []int) {
+func c02Case(first uint64, kinds []int) { c02CaseT(5, first, kinds) }
+
+// c02CaseT: the same with the trusted header at height th (64-bit boundaries: heights 2^63 and more apart)
+func c02CaseT(th uint64, first uint64, kinds []int) {
 	now := time.Now().UnixNano()
 	hour := int64(time.Hour)
-	t := &vhdr.Header{Chain: "A", H: 5, T: now - hour, VK: vhdr.VKOk}
+	t := &vhdr.Header{Chain: "A", H: th, T: now - hour, VK: vhdr.VKOk}
 	var us []*vhdr.Header
 	prevH, prevT := first-1, now-hour
 	for _, k := range kinds {
@@ -205,7 +208,7 @@ func c02Case(first uint64, kinds []int) {
 			break
 		}
 	}
-	emit("C02 now=%d drift=%d th=5 tt=%d us=%s => len=%d prefix=%d err=%s", now, driftNs, now-hour, in, len(res), b2i(pref), verrTag(err))
+	emit("C02 now=%d drift=%d th=%d tt=%d us=%s => len=%d prefix=%d err=%s", now, driftNs, th, now-hour, in, len(res), b2i(pref), verrTag(err))
 }
 
 func runC02(tier string, r *rng) {
@@ -227,6 +230,14 @@ func runC02(tier string, r *rng) {
 		}
 	}
 	rec(nil)
+	// heights 2^63 and more apart (signed arithmetic on height differences goes wrong exactly there)
+	big := uint64(1)<<63 + 9
+	for _, ks := range [][]int{{kGood, kGood, kGood}, {kGood}, {kGood, kGap}, {kGood, kLower, kGood}} {
+		c02CaseT(big, 1, ks)          // range far BELOW the trusted header: known
+		c02CaseT(big, big+1, ks)      // adjacent to it
+		c02CaseT(5, big, ks)          // range far ABOVE a low trusted header
+		c02CaseT(5, ^uint64(0)-3, ks) // up against the top of uint64
+	}
 	// random long sequences with one defect at a random position
 	n := 300
 	if tier == "thorough" {
